@@ -241,17 +241,19 @@ Proof.
   destruct (fst (m e)) eqn:E; [|exact I]. split; [exact H2|]. eapply HR. exact E.
 Qed.
 
-Definition sc (m m' : sm) : Prop := m_cup m' = m_cup m.
+(* neither the CUP handler nor the service URL of the machine ever changes *)
+Definition sc (m m' : sm) : Prop := m_cup m' = m_cup m /\ m_url m' = m_url m.
+Ltac screfl := split; reflexivity.
 Ltac ra := eapply retp_bind; [apply retp_any|]; intros ? _.
 Lemma rc_do_req b m : retp (do_omaha_request b m) (fun r => sc m (fst r)).
 Proof.
   unfold do_omaha_request.
-  destruct (negb (u_valid (m_url m))); [apply retp_ret; reflexivity|].
-  destruct (negb (headers_ok (m_cfg m) b)); [ra; apply retp_ret; reflexivity|].
-  ra. ra. ra. match goal with |- retp (match ?o with HErr _ => _ | HResp _ _ _ _ => _ end) _ => destruct o as [k|status ra0 au bd] end; [apply retp_ret; reflexivity|].
-  destruct (match m_cup m with Some _ => negb au | None => false end); [apply retp_ret; reflexivity|].
+  destruct (negb (u_valid (m_url m))); [apply retp_ret; screfl|].
+  destruct (negb (headers_ok (m_cfg m) b)); [ra; apply retp_ret; screfl|].
+  ra. ra. ra. match goal with |- retp (match ?o with HErr _ => _ | HResp _ _ _ _ => _ end) _ => destruct o as [k|status ra0 au bd] end; [apply retp_ret; screfl|].
+  destruct (match m_cup m with Some _ => negb au | None => false end); [apply retp_ret; screfl|].
   eapply retp_bind with (R1 := fun m' => sc m m').
-  { destruct (oZ_eqb (ps_poll (m_ps m)) (parse_retry_after ra0)); [apply retp_ret; reflexivity|]. cbv zeta. ra. ra. ra. apply retp_ret. reflexivity. }
+  { destruct (oZ_eqb (ps_poll (m_ps m)) (parse_retry_after ra0)); [apply retp_ret; screfl|]. cbv zeta. ra. ra. ra. apply retp_ret. screfl. }
   intros m' Hm'. destruct ((200 <=? status) && (status <? 300))%N; apply retp_ret; exact Hm'.
 Qed.
 Lemma rc_report_event p ev apps sess nv dur m : retp (report_event p ev apps sess nv dur m) (sc m).
@@ -260,7 +262,7 @@ Proof.
   - ra. apply retp_ret. exact Hm'.
   - apply retp_ret. exact Hm'.
 Qed.
-Lemma sc_trans a b c : sc a b -> sc b c -> sc a c. Proof. unfold sc. congruence. Qed.
+Lemma sc_trans a b c : sc a b -> sc b c -> sc a c. Proof. unfold sc. intros [H1 H2] [H3 H4]. split; congruence. Qed.
 Lemma rc_attempt_loop b0 sess fuel : forall attempt m, retp (attempt_loop fuel attempt b0 sess m) (fun r => sc m (fst (fst r))).
 Proof.
   induction fuel as [|f IH]; intros attempt m; cbn [attempt_loop]; [apply retp_halt|].
@@ -271,7 +273,7 @@ Proof.
   - ra. ra. eapply retp_conseq; [apply IH|]. intros r Hr. eapply sc_trans; eassumption.
 Qed.
 Lemma rc_report_check_interval src m : retp (report_check_interval src m) (sc m).
-Proof. unfold report_check_interval. ra. ra. apply retp_ret. reflexivity. Qed.
+Proof. unfold report_check_interval. ra. ra. apply retp_ret. screfl. Qed.
 Lemma rc_perform fuel p apps m : retp (perform_update_check fuel p apps m) (fun r => sc m (fst r)).
 Proof.
   unfold perform_update_check. ra. eapply retp_bind; [apply rc_report_check_interval|]. intros m0 H0. ra.
@@ -309,7 +311,7 @@ Proof.
   intros [[m2 result] rb] H2. ra. ra. ra. ra. apply retp_ret. exact H2.
 Qed.
 Lemma rc_update_next m : retp (update_next_update_time m) (fun r => sc m (fst r)).
-Proof. unfold update_next_update_time. ra. ra. ra. apply retp_ret. reflexivity. Qed.
+Proof. unfold update_next_update_time. ra. ra. ra. apply retp_ret. screfl. Qed.
 Lemma rc_ping m : retp (ping_omaha m) (sc m).
 Proof.
   unfold ping_omaha. cbv zeta. ra. ra. ra. eapply retp_bind; [apply rc_do_req|]. intros [m1 res] H1; cbn [fst] in H1.
@@ -320,7 +322,7 @@ Lemma rc_reboot_loop fuel : forall src pending m, retp (reboot_loop fuel src pen
 Proof.
   induction fuel as [|f IH]; intros src pending m; cbn [reboot_loop]; [apply retp_halt|].
   ra. match goal with |- retp (match ?q with Some _ => _ | None => _ end) _ => destruct q as [[id sc0]|] end.
-  { ra. match goal with |- retp (if ?g then _ else _) _ => destruct g end; [apply retp_ret; reflexivity|apply IH]. }
+  { ra. match goal with |- retp (if ?g then _ else _) _ => destruct g end; [apply retp_ret; screfl|apply IH]. }
   ra. match goal with |- retp (match ?s with Fire _ => _ | Control _ => _ | DropHandles => _ end) _ => destruct s as [i|sc0|] end.
   - assert (Hping : retp (m1 <- ping_omaha m;; mt <- update_next_update_time m1;;
                           (let '(m2, t) := mt in roles <- make_wait t;; reboot_loop f src (remove_nth i pending ++ roles) m2)) (sc m)).
@@ -329,15 +331,15 @@ Proof.
     destruct (nth_error pending i) as [[| |]|].
     + destruct (has_ping_roles (remove_nth i pending)); [apply IH|exact Hping].
     + destruct (has_ping_roles (remove_nth i pending)); [apply IH|exact Hping].
-    + ra. match goal with |- retp (if ?g then _ else _) _ => destruct g end; [apply retp_ret; reflexivity|]. ra. apply IH.
+    + ra. match goal with |- retp (if ?g then _ else _) _ => destruct g end; [apply retp_ret; screfl|]. ra. apply IH.
     + apply IH.
-  - ra. ra. ra. match goal with |- retp (if ?g then _ else _) _ => destruct g end; [apply retp_ret; reflexivity|apply IH].
+  - ra. ra. ra. match goal with |- retp (if ?g then _ else _) _ => destruct g end; [apply retp_ret; screfl|apply IH].
   - apply IH.
 Qed.
 Lemma rc_wait_for_reboot fuel src m : retp (wait_for_reboot fuel src m) (sc m).
 Proof.
   unfold wait_for_reboot. ra. eapply retp_bind with (R1 := sc m).
-  { match goal with |- retp (if ?g then _ else _) _ => destruct g end; [apply retp_ret; reflexivity|]. ra.
+  { match goal with |- retp (if ?g then _ else _) _ => destruct g end; [apply retp_ret; screfl|]. ra.
     eapply retp_bind; [apply rc_update_next|]. intros [m1 t] H1; cbn [fst] in H1. ra.
     eapply retp_conseq; [apply rc_reboot_loop|]. intros m2 H2. eapply sc_trans; eassumption. }
   intros m1 H1. ra. ra. apply retp_ret. exact H1.
@@ -357,7 +359,7 @@ Qed.
 
 (* ---------- the attempts ---------- *)
 Definition cupb (m : sm) : bool := match m_cup m with Some _ => true | None => false end.
-Lemma cupb_sc m m' : sc m m' -> cupb m' = cupb m. Proof. unfold sc, cupb. intros ->. reflexivity. Qed.
+Lemma cupb_sc m m' : sc m m' -> cupb m' = cupb m. Proof. unfold sc, cupb. intros [-> _]. reflexivity. Qed.
 Definition is_inr {A B} (x : A + B) : bool := match x with inr _ => true | inl _ => false end.
 
 Definition okctl (a : action) : bool := match a with ARequest _ _ | AReply _ _ => true | _ => false end.
